@@ -57,7 +57,9 @@ func TestVF_C20_KeyProofParallel(t *testing.T) {
 		wg.Wait()
 		rec.Case(fmt.Sprintf("S4-keyproof/parallel=%d", len(cases)), true, fmt.Sprintf("kp|%d|%d", rep, rec.Seed()))
 		if rep == 0 {
-			rec.Sample(func() any { return map[string]any{"script": "S4-keyproof", "parallel_proofs": len(cases), "verifiers_per_proof": 2} })
+			rec.Sample(func() any {
+				return map[string]any{"script": "S4-keyproof", "parallel_proofs": len(cases), "verifiers_per_proof": 2}
+			})
 		}
 		if len(problems) > 0 {
 			rec.FailT("concurrently-built-key-proof-component-invalid", map[string]any{"what": problems[0], "count": len(problems)})
